@@ -56,6 +56,9 @@ def variants_of(task):
             for j in range(nsite):
                 add('inline(where=%d,recursive=%s)' % (j, rec), lambda: st.inline(f, j, recursive=rec))
         add('inline>inline', lambda: st.inline(st.inline(f, None, recursive=False), None, recursive=False))
+        import fpy2 as _fp
+        for nm, fn in sorted((k, v) for k, v in _.items() if isinstance(v, _fp.Function) and v is not f):
+            add('inline(funcs=[%s])' % nm, lambda fn=fn: st.inline(f, funcs=[fn]))
         add('inline>simplify', lambda: st.simplify(st.inline(f)))
     for C, nm in ((fp.MPSFloatContext(3, -2), 'MPS(3,-2)'), (fp.MPSFloatContext(4, -3, fp.RM.RTZ), 'MPS(4,-3,RTZ)'), (fp.MPFloatContext(2, fp.RM.RTP), 'MP(2,RTP)')):
         add('monomorphize(ctx=%s)' % nm, lambda: st.monomorphize(f, C), (C, None))
